@@ -162,7 +162,7 @@ where
         with_ext::<B, QuadExtension<B>>(rep, rng, &inst.spec, &inst.main, &options, &ctx);
     }
     // end to end: the proof does not depend on the order in which the AIR lists its assertions
-    if case % 4 == 0 && inst.spec.assertions.len() >= 2 && inst.spec.n() <= 256 && !cfg!(feature = "concurrent") {
+    if case % 4 == 0 && inst.spec.assertions.len() >= 2 && inst.spec.n() <= 256 && !cfg!(feature = "concurrent") && !cfg!(debug_assertions) {
         let mut s2: Spec = (*inst.spec).clone();
         s2.assertion_order.reverse();
         let s2 = Arc::new(s2);
